@@ -123,6 +123,20 @@ func c08h(c *ctx) {
 		}
 	}
 	entries := []string{"Handle", "HandleNoCipher", "ControlFrameHandler", "HandleControlMessage", "Direct"}
+	// every UTF-8 sample (valid and invalid, up to the maximal 123 bytes, also cut inside a character at
+	// the very end) as the reason of an otherwise acceptable close frame
+	for _, smp := range utf8Samples {
+		if len(smp.b) > 123 {
+			continue
+		}
+		for _, code := range []int{1000, 3000} {
+			for ei, entry := range entries {
+				side := []string{"server", "client"}[(ei+len(smp.b))%2]
+				pay := append([]byte{byte(code >> 8), byte(code)}, smp.b...)
+				run(fmt.Sprintf("reason/%s/%d/%s/%s", smp.name, code, entry, side), entry, side, 8, pay)
+			}
+		}
+	}
 	for _, side := range []string{"server", "client"} {
 		for _, entry := range entries {
 			for ln := 0; ln <= 125; ln++ {
